@@ -25,7 +25,8 @@ from molgri.space.rotobj import SphereGridFactory
 
 PROPERTY = "C08"
 SPECS_Q = ["ico_7", "ico_13", "cube3D_9", "cube3D_27", "randomS_6", "cube4D_5", "cube4D_9", "randomQ_6"]
-GETTERS = ["array", "volumes", "volumes_approx", "prefactors", "adjacency", "borders", "distances", "full_array", "hulls"]
+GETTERS = ["array", "volumes", "volumes_approx", "prefactors", "adjacency", "borders", "distances", "full_array", "hulls", "pos_adjacency", "pos_borders",
+           "pos_distances"]
 START_SEED = 424242
 _TABLE = None
 
@@ -62,6 +63,11 @@ def observe_hulls(sv) -> str:
 def observe_fg(fg, getter) -> str:
     if getter == "hulls":
         return observe_hulls(fg.b_rotations.get_spherical_voronoi())
+    if getter.startswith("pos_"):        # the position grid's own getters (the full-grid getters are composed from them)
+        pg = fg.get_position_grid()
+        m = {"pos_adjacency": pg.get_adjacency_of_position_grid, "pos_borders": pg.get_borders_of_position_grid,
+             "pos_distances": pg.get_distances_of_position_grid}[getter]().tocoo()
+        return sha(m.row.tobytes(), m.col.tobytes(), np.asarray(m.data).tobytes(), m.shape)
     if getter == "prefactors":
         m = fg.get_full_prefactors().tocoo()
         return sha(m.row.tobytes(), m.col.tobytes(), np.asarray(m.data).tobytes(), m.shape)
@@ -93,6 +99,8 @@ def observe(obj, getter) -> str:
     if getter == "volumes":
         a = np.asarray(obj.get_spherical_voronoi().get_voronoi_volumes())
         return sha(np.ascontiguousarray(a).tobytes(), a.shape)
+    if getter.startswith("pos_"):       # sphere grid: the same matrices as the plain getters
+        getter = getter[4:]
     if getter == "prefactors":          # only FullGrid objects have prefactors; for a sphere grid: its coordinates again
         getter = "array"
         a = obj.get_grid_as_array()
@@ -277,7 +285,10 @@ def prefix_case(case):
     vs = []
     digs = {}
     for N in range(1, nmax + 1):
-        if case.get("stride") and N % case["stride"] != case.get("phase", 0):
+        if case.get("only"):
+            if N not in case["only"]:
+                continue
+        elif case.get("stride") and N % case["stride"] != case.get("phase", 0):
             continue
         np.random.seed(N)   # arbitrary, different global RNG state before every construction
         np.random.random(N % 7)
@@ -375,7 +386,7 @@ def run(ctx):
                                                                     {"alg": "ico", "Nmax": 170, "stride": 13, "phase": 1},
                                                                     {"alg": "cube3D", "Nmax": 110, "stride": 11, "phase": 0}]
     # split long prefix sweeps so that they parallelise
-    pcs = []
+    pcs = [{"alg": "fulldiv", "Nmax": 272, "only": [8, 40, 272]}]      # fulldiv exists for complete subdivisions only
     for c in pc:
         if "stride" in c:
             pcs.append(c)
